@@ -50,8 +50,12 @@ Cases ==
     \cup (IF "checkpoint" \in Ops THEN [dag : {d}, op : {"checkpoint"}, children : NonEmpty, parents : {{}}, omit : {{}}] ELSE {})
     : d \in Dags }
 
-\* a child that is itself omitted is not a meaningful call
-Meaningful(c) == c.children \cap c.omit = {}
+\* omit names collections the children are built from (or unrelated ones): a call that omits a child, or a
+\* collection that is itself computed from a child, is not meaningful (with assume_layers = False the whole
+\* graph of an omit collection is left alone, a child inside it included)
+RECURSIVE AncOrSelf(_, _)
+AncOrSelf(dag, S) == LET T == S \cup UNION { dag[i] : i \in S } IN IF T = S THEN S ELSE AncOrSelf(dag, T)
+Meaningful(c) == c.children \cap AncOrSelf(c.dag, c.omit) = {}
 
 \* ---------------------------------------------------------------- reference graphs
 K(i, j, gen) == <<i, j, gen>>
